@@ -61,8 +61,40 @@ pub struct Ev {
     pub ord: u8,
     pub ord_fail: u8,
     pub ok: bool,
+    /// was the watched mutex (see `watch_mutex`) held when the step happened
+    pub locked: bool,
 }
-const E0: Ev = Ev { kind: 0, cell: 0, a: 0, b: 0, ret: 0, ord: 0, ord_fail: 0, ok: false };
+const E0: Ev = Ev { kind: 0, cell: 0, a: 0, b: 0, ret: 0, ord: 0, ord_fail: 0, ok: false, locked: false };
+static mut RELY_COUNT_BOUND: u64 = 0;
+static mut FLOAT_CELL: [usize; 2] = [0, 0];
+/// rely condition for drained integer cells (see env_swap)
+pub fn rely_counts_below(bound: u64, float_cell0: usize, float_cell1: usize) {
+    unsafe {
+        RELY_COUNT_BOUND = bound;
+        FLOAT_CELL = [float_cell0, float_cell1];
+    }
+}
+static mut WATCH: *const std::sync::Mutex<()> = core::ptr::null();
+/// every later event records whether this mutex is held at the time of the step
+pub fn watch_mutex(m: &std::sync::Mutex<()>) {
+    unsafe { WATCH = m as *const _ }
+}
+fn watched_locked() -> bool {
+    unsafe {
+        if WATCH.is_null() {
+            false
+        } else {
+            let r = (*WATCH).try_lock();
+            match r {
+                Ok(g) => {
+                    drop(g);
+                    false
+                }
+                Err(_) => true,
+            }
+        }
+    }
+}
 pub const MAXLOG: usize = 24;
 static mut LOG: [Ev; MAXLOG] = [E0; MAXLOG];
 static mut N: usize = 0;
@@ -85,6 +117,8 @@ pub fn reset(max_cas_fails: u32) {
         N = 0;
         CAS_FAILS = 0;
         MAX_CAS_FAILS = max_cas_fails;
+        WATCH = core::ptr::null();
+        RELY_COUNT_BOUND = 0;
         EXP_ON = false;
         LAST_LOAD_VALID = false;
         OK_WRITES = 0;
@@ -131,7 +165,8 @@ pub fn ev(i: usize) -> Ev {
 pub fn cas_fails() -> u32 {
     unsafe { CAS_FAILS }
 }
-fn push(e: Ev) {
+fn push(mut e: Ev) {
+    e.locked = watched_locked();
     unsafe {
         assert!(N < MAXLOG, "VERIF-ENV: event log overflow");
         LOG[N] = e;
@@ -154,25 +189,32 @@ pub fn env_load(c: &AtomicU64, o: Ordering) -> u64 {
             LAST_LOAD_VALID = true;
         }
     }
-    push(Ev { kind: LOAD, cell: addr_u(c), a: 0, b: 0, ret: v, ord: ord(o), ord_fail: 0, ok: true });
+    push(Ev { kind: LOAD, cell: addr_u(c), a: 0, b: 0, ret: v, ord: ord(o), ord_fail: 0, ok: true, locked: false });
     v
 }
 pub fn env_store(c: &AtomicU64, val: u64, o: Ordering) {
-    push(Ev { kind: STORE, cell: addr_u(c), a: val, b: 0, ret: 0, ord: ord(o), ord_fail: 0, ok: true });
+    push(Ev { kind: STORE, cell: addr_u(c), a: val, b: 0, ret: 0, ord: ord(o), ord_fail: 0, ok: true, locked: false });
 }
 pub fn env_fetch_add(c: &AtomicU64, val: u64, o: Ordering) -> u64 {
     let v: u64 = kani::any();
-    push(Ev { kind: FADD, cell: addr_u(c), a: val, b: 0, ret: v, ord: ord(o), ord_fail: 0, ok: true });
+    push(Ev { kind: FADD, cell: addr_u(c), a: val, b: 0, ret: v, ord: ord(o), ord_fail: 0, ok: true, locked: false });
     v
 }
 pub fn env_fetch_sub(c: &AtomicU64, val: u64, o: Ordering) -> u64 {
     let v: u64 = kani::any();
-    push(Ev { kind: FSUB, cell: addr_u(c), a: val, b: 0, ret: v, ord: ord(o), ord_fail: 0, ok: true });
+    push(Ev { kind: FSUB, cell: addr_u(c), a: val, b: 0, ret: v, ord: ord(o), ord_fail: 0, ok: true, locked: false });
     v
 }
 pub fn env_swap(c: &AtomicU64, val: u64, o: Ordering) -> u64 {
     let v: u64 = kani::any();
-    push(Ev { kind: SWAP, cell: addr_u(c), a: val, b: 0, ret: v, ord: ord(o), ord_fail: 0, ok: true });
+    unsafe {
+        // rely: integer cells hold counts below RELY_COUNT_BOUND (the histogram's own limit is
+        // 2^63 observations in total); cells registered as float cells are unconstrained
+        if RELY_COUNT_BOUND != 0 && addr_u(c) != FLOAT_CELL[0] && addr_u(c) != FLOAT_CELL[1] {
+            kani::assume(v < RELY_COUNT_BOUND);
+        }
+    }
+    push(Ev { kind: SWAP, cell: addr_u(c), a: val, b: 0, ret: v, ord: ord(o), ord_fail: 0, ok: true, locked: false });
     v
 }
 pub fn env_cas_weak(c: &AtomicU64, current: u64, new: u64, s: Ordering, f: Ordering) -> Result<u64, u64> {
@@ -201,7 +243,7 @@ pub fn env_cas_weak(c: &AtomicU64, current: u64, new: u64, s: Ordering, f: Order
             CAS_FAILS += 1;
         }
     }
-    push(Ev { kind: CAS, cell: addr_u(c), a: current, b: new, ret: v, ord: ord(s), ord_fail: ord(f), ok });
+    push(Ev { kind: CAS, cell: addr_u(c), a: current, b: new, ret: v, ord: ord(s), ord_fail: ord(f), ok, locked: false });
     if ok {
         Ok(v)
     } else {
@@ -212,27 +254,27 @@ pub fn env_cas_weak(c: &AtomicU64, current: u64, new: u64, s: Ordering, f: Order
 // ---- i64 cells ------------------------------------------------------------------------------
 pub fn env_load_i(c: &AtomicI64, o: Ordering) -> i64 {
     let v: i64 = kani::any();
-    push(Ev { kind: LOAD, cell: addr_i(c), a: 0, b: 0, ret: v as u64, ord: ord(o), ord_fail: 0, ok: true });
+    push(Ev { kind: LOAD, cell: addr_i(c), a: 0, b: 0, ret: v as u64, ord: ord(o), ord_fail: 0, ok: true, locked: false });
     v
 }
 pub fn env_store_i(c: &AtomicI64, val: i64, o: Ordering) {
-    push(Ev { kind: STORE, cell: addr_i(c), a: val as u64, b: 0, ret: 0, ord: ord(o), ord_fail: 0, ok: true });
+    push(Ev { kind: STORE, cell: addr_i(c), a: val as u64, b: 0, ret: 0, ord: ord(o), ord_fail: 0, ok: true, locked: false });
 }
 pub fn env_fetch_add_i(c: &AtomicI64, val: i64, o: Ordering) -> i64 {
     let v: i64 = kani::any();
-    push(Ev { kind: FADD, cell: addr_i(c), a: val as u64, b: 0, ret: v as u64, ord: ord(o), ord_fail: 0, ok: true });
+    push(Ev { kind: FADD, cell: addr_i(c), a: val as u64, b: 0, ret: v as u64, ord: ord(o), ord_fail: 0, ok: true, locked: false });
     v
 }
 pub fn env_fetch_sub_i(c: &AtomicI64, val: i64, o: Ordering) -> i64 {
     let v: i64 = kani::any();
-    push(Ev { kind: FSUB, cell: addr_i(c), a: val as u64, b: 0, ret: v as u64, ord: ord(o), ord_fail: 0, ok: true });
+    push(Ev { kind: FSUB, cell: addr_i(c), a: val as u64, b: 0, ret: v as u64, ord: ord(o), ord_fail: 0, ok: true, locked: false });
     v
 }
 
 
 // ---- contract stub of the crate's own AtomicF64::inc_by (modular verification of its callers) ----
 pub fn contract_f64_inc_by(c: &crate::atomic64::AtomicF64, delta: f64) {
-    push(Ev { kind: ADD_F64, cell: crate::__vsup::addr_of(c), a: delta.to_bits(), b: 0, ret: 0, ord: 0, ord_fail: 0, ok: true });
+    push(Ev { kind: ADD_F64, cell: crate::__vsup::addr_of(c), a: delta.to_bits(), b: 0, ret: 0, ord: 0, ord_fail: 0, ok: true, locked: false });
 }
 /// exactly one event since `from`, and it is the contract-level float add of `delta` on `cell`
 pub fn is_single_f64_add(from: usize, cell: usize, delta: f64) -> bool {
